@@ -168,6 +168,32 @@ pub const EXTRAS_PREAMBLE: [Extra; 10] = [
     Extra::GetValuesNonNull,
 ];
 
+/// Reply-eliciting and stray records for the C04 workloads (adds unknown-role BeginRequests).
+pub const EXTRAS_PRE_REPLIES: [Extra; 9] = [
+    Extra::GetValues,
+    Extra::GetValues,
+    Extra::GetValuesEmpty,
+    Extra::UnknownType,
+    Extra::UnknownType,
+    Extra::ForeignBegin,
+    Extra::ForeignBeginUnknownRole,
+    Extra::ForeignAbort,
+    Extra::OddKnown,
+];
+pub const EXTRAS_STREAM_REPLIES: [Extra; 11] = [
+    Extra::ForeignBeginUnknownRole,
+    Extra::GetValues,
+    Extra::GetValues,
+    Extra::GetValuesEmpty,
+    Extra::UnknownType,
+    Extra::UnknownType,
+    Extra::ForeignBegin,
+    Extra::ForeignBegin,
+    Extra::StaleParams,
+    Extra::ForeignStream,
+    Extra::GetValuesNonNull,
+];
+
 pub const EXTRAS_STREAM: [Extra; 12] = [
     Extra::GetValues,
     Extra::GetValuesEmpty,
@@ -539,6 +565,8 @@ pub struct ReqSpec {
     pub extra_pct_stream: usize,
     /// tag offset so that different requests on one connection carry distinguishable bytes
     pub tag_base: u8,
+    pub extras_pre: &'static [Extra],
+    pub extras_stream: &'static [Extra],
 }
 
 #[derive(Clone, Debug)]
@@ -558,14 +586,14 @@ pub fn push_request(rng: &mut Rng, out: &mut Vec<u8>, s: &ReqSpec) -> BuiltReq {
         p.encode(&mut payload);
     }
     let cuts = gen_cuts(rng, &payload, &pairs);
-    let preamble = push_preamble(rng, out, s.id, s.role, s.flags, &pairs, &cuts, s.extra_pct_pre, &EXTRAS_PREAMBLE, s.max_pair);
+    let preamble = push_preamble(rng, out, s.id, s.role, s.flags, &pairs, &cuts, s.extra_pct_pre, s.extras_pre, s.max_pair);
     let mut streams = Vec::new();
     for (i, &t) in wire::role_input_streams(s.role).iter().enumerate() {
         let tag = (s.tag_base + i as u8) & 3;
         let n_streams = wire::role_input_streams(s.role).len();
         // a non-final stream may be ended by the first record of the next stream instead of its own terminator
         let terminate = !(i + 1 < n_streams && rng.chance(1, 3));
-        let mut ex: Vec<Extra> = EXTRAS_STREAM.to_vec();
+        let mut ex: Vec<Extra> = s.extras_stream.to_vec();
         if i > 0 {
             ex.push(Extra::EarlierStream);
             ex.push(Extra::EarlierStream);
@@ -575,7 +603,7 @@ pub fn push_request(rng: &mut Rng, out: &mut Vec<u8>, s: &ReqSpec) -> BuiltReq {
     }
     // trailing management / stray records after the last terminator
     while rng.below(100) < s.extra_pct_stream {
-        let k = *rng.pick(&EXTRAS_STREAM);
+        let k = *rng.pick(s.extras_stream);
         push_extra(rng, out, k, s.id, s.role, s.max_pair);
     }
     BuiltReq { start, end: out.len(), preamble, streams }
